@@ -6,8 +6,13 @@ file object recording every write; proved for both atom styles that
   * the box lines state 0 .. cell[i][i] and the tilt line cell[1][0], cell[2][0], cell[2][1]; a cell that is not in LAMMPS orientation is refused;
   * every record of Masses / * Coeffs / Atoms / Bonds / Angles / Dihedrals / Impropers carries the 1-based id of its position, the 1-based type id
     and 1-based atom ids of that item (atom records: molecule id, type, charge, x, y, z in the order of the chosen style), in the section it belongs to.
-The reader (load_lmpdat) and the whole-file round trip are BOUNDED: bounded/C13.py parses the written text with an independent reader, re-reads it
-with mofun and rewrites it to a byte-identical fixed point (DESIGN C13: a whole-file inductive proof of the line reader is not attempted).
+Reader side (prove_decode): the decoding statements of load_lmpdat (style switch, get_types_tups) are executed on token arrays that carry what the
+writer was PROVED to put into the records (shared table `records(style)`); proved for both styles and every combination of empty / non-empty
+sections: reading back gives the structure's type ids, molecule groups and charges (full style; zeros for atomic), positions, and every term with
+its type and atoms -- i.e. decode(encode(item)) == item at record level, column order and 1-based / 0-based shifts included.
+The line reader of load_lmpdat (section state machine, str.split, comments), the text <-> number bridge, coefficient strings token for token and the
+byte-identical rewrite are BOUNDED: bounded/C13.py parses the written text with an independent reader, re-reads it with mofun and rewrites it to a
+fixed point (DESIGN C13: a whole-file inductive proof of the line reader is not attempted).
 """
 import z3
 
@@ -17,9 +22,10 @@ from pyvc import models_py, models_np, models_lin
 from contracts import atoms_model as AM
 
 META = {
-    'level': 'other',
-    'explanation': "writer records proved against the structure for arbitrary sizes; parsing and the round trip only checked with a stated bound "
-                   "(independent reader + re-read + fixed point)",
+    'level': 'proof',
+    'explanation': "writer records proved against the structure for arbitrary sizes; the reader's decoding statements proved to invert them (record-level "
+                   "round trip for atoms and all term kinds, both styles); line tokenisation, coefficient strings and the byte-identical rewrite only "
+                   "checked with a stated bound (independent reader + re-read + fixed point)",
     'trusted_base': ["'%d' / '%10.6f' formatting and str.split are not interpreted: a record is identified by its format string and argument tuple",
                      "Atoms.label_atoms only produces the trailing comment", "z3 soundness", "pyvc symbolic interpreter"],
 }
@@ -34,6 +40,26 @@ class Fmt:
 
 class FileRec:
     pass
+
+
+def records(style):
+    """What each record of a section carries, as proved of the writer: loop fingerprint -> (section, format, lambda fields, k: argument terms)."""
+    RECORDS = {
+        '(i, m) in enumerate(self.atom_type_masses)': ('Masses', ' %d %10.6f   # %s\n', lambda f, k: [k + 1, z3.Select(f['atom_type_masses'].cols[0], k)]),
+        '(i, coeffs) in enumerate(self.pair_coeffs)': ('Pair Coeffs', ' %d %s\n', lambda f, k: [k + 1, z3.Select(f['pair_coeffs'].cols[0], k)]),
+    }
+    for kind, w in AM.KINDS:
+        RECORDS['(i, coeffs) in enumerate(self.%s_type_coeffs)' % kind] = (kind.capitalize() + ' Coeffs', ' %d %s\n',
+                lambda f, k, kind=kind: [k + 1, z3.Select(f[kind + '_type_coeffs'].cols[0], k)])
+        RECORDS['(i, tup) in enumerate(self.%s)' % AM.PLURAL[kind]] = (AM.PLURAL[kind].capitalize(), ' %d %d' + ' %d' * w + '   # %s\n',
+                lambda f, k, kind=kind: [k + 1, z3.Select(f[kind + '_types'].cols[0], k) + 1] + [z3.Select(c, k) + 1 for c in f[AM.PLURAL[kind]].cols])
+    if style == 'full':
+        RECORDS['(i, (x, y, z)) in enumerate(self.positions)'] = ('Atoms', ' %d %d %d %10.6f %10.6f %10.6f %10.6f   # %s\n',
+                lambda f, k: [k + 1, z3.Select(f['groups'].cols[0], k) + 1, z3.Select(f['atom_types'].cols[0], k) + 1, z3.Select(f['charges'].cols[0], k)] + [z3.Select(c, k) for c in f['positions'].cols])
+    else:
+        RECORDS['(i, (x, y, z)) in enumerate(self.positions)'] = ('Atoms', ' %d %d %10.6f %10.6f %10.6f   # %s\n',
+                lambda f, k: [k + 1, z3.Select(f['atom_types'].cols[0], k) + 1] + [z3.Select(c, k) for c in f['positions'].cols])
+    return RECORDS
 
 
 def build(S):
@@ -157,21 +183,7 @@ def build(S):
                 f, C = None, None
                 S.add(I, "%s/raises-only-for-cells-not-in-lammps-orientation#%d" % (tag, n), p.pc, z3.BoolVal(name == 'full-structure'))
             # one loop iteration = one record: the last write of the iteration path
-            RECORDS = {
-                '(i, m) in enumerate(self.atom_type_masses)': ('Masses', ' %d %10.6f   # %s\n', lambda f, k: [k + 1, z3.Select(f['atom_type_masses'].cols[0], k)]),
-                '(i, coeffs) in enumerate(self.pair_coeffs)': ('Pair Coeffs', ' %d %s\n', lambda f, k: [k + 1, z3.Select(f['pair_coeffs'].cols[0], k)]),
-            }
-            for kind, w in AM.KINDS:
-                RECORDS['(i, coeffs) in enumerate(self.%s_type_coeffs)' % kind] = (kind.capitalize() + ' Coeffs', ' %d %s\n',
-                        lambda f, k, kind=kind: [k + 1, z3.Select(f[kind + '_type_coeffs'].cols[0], k)])
-                RECORDS['(i, tup) in enumerate(self.%s)' % AM.PLURAL[kind]] = (AM.PLURAL[kind].capitalize(), ' %d %d' + ' %d' * w + '   # %s\n',
-                        lambda f, k, kind=kind: [k + 1, z3.Select(f[kind + '_types'].cols[0], k) + 1] + [z3.Select(c, k) + 1 for c in f[AM.PLURAL[kind]].cols])
-            if style == 'full':
-                RECORDS['(i, (x, y, z)) in enumerate(self.positions)'] = ('Atoms', ' %d %d %d %10.6f %10.6f %10.6f %10.6f   # %s\n',
-                        lambda f, k: [k + 1, z3.Select(f['groups'].cols[0], k) + 1, z3.Select(f['atom_types'].cols[0], k) + 1, z3.Select(f['charges'].cols[0], k)] + [z3.Select(c, k) for c in f['positions'].cols])
-            else:
-                RECORDS['(i, (x, y, z)) in enumerate(self.positions)'] = ('Atoms', ' %d %d %10.6f %10.6f %10.6f   # %s\n',
-                        lambda f, k: [k + 1, z3.Select(f['atom_types'].cols[0], k) + 1] + [z3.Select(c, k) for c in f['positions'].cols])
+            RECORDS = records(style)
             seen_fp = set()
             for n, p in enumerate(iters):
                 notes = p.notes
@@ -201,6 +213,140 @@ def build(S):
         return I
     for style in ('full', 'atomic'):
         S.guarded('save_lmpdat[%s]' % style, lambda style=style: check_style(style))
+    prove_decode(S)
     S.clause('header counts, type counts, box and tilt lines, section order', 'PROVED on the writer (record level)')
-    S.clause('per-item records (ids, types, atoms, coordinates) and parsing them back', 'BOUNDED (independent reader, bounded/C13.py)')
-    S.clause('whole-file round trip and byte-identical rewrite', 'BOUNDED')
+    S.clause('per-item records (ids, types, atoms, coordinates, charge, molecule) written by save_lmpdat', 'PROVED (record level)')
+    S.clause('reading the records back reproduces type ids, groups, charges, positions, terms with types (decode o encode = id)', 'PROVED (decoding statements of load_lmpdat; text <-> number bridge assumed)')
+    S.clause('line reader (sections, comments, split), coefficient strings token for token, masses / labels, byte-identical rewrite', 'BOUNDED (independent reader, bounded/C13.py)')
+
+
+# ------------------------------------------------------------------------------------------------
+# reader side: the decoding statements of load_lmpdat, and the record-level round trip  decode(encode(item)) == item
+import ast
+from pyvc.values import Builtin
+
+
+def prove_decode(S):
+    S.function(REL, 'Atoms.load_lmpdat')
+    for style in ('full', 'atomic'):
+        S.guarded('load_lmpdat decode[%s]' % style, lambda style=style: _decode(S, style))
+
+
+def _decode(S, style):
+    I = S.interp()
+    I.allow_merge = False
+    models_py.install(I)
+    models_np.install(I)
+    from pyvc import models_ext
+    models_ext.install(I)
+    mod = I.module(REL)
+    fn = mod.find('Atoms.load_lmpdat')
+    helper = [n for n in fn.body if isinstance(n, ast.FunctionDef) and n.name == 'get_types_tups']
+    sel = [n for n in fn.body if isinstance(n, ast.If) and ast.unparse(n.test) == "atom_format == 'atomic'"]
+    terms = [n for n in fn.body if isinstance(n, ast.Assign) and isinstance(n.value, ast.Call) and ast.unparse(n.value.func) == 'get_types_tups']
+    if len(helper) != 1 or len(sel) != 1 or len(terms) != 4:
+        raise OutOfSubset("decoding statements of load_lmpdat not found (contract no longer applies)")
+    tag = "load_lmpdat[%s]" % style
+    REC = records(style)
+
+    def m_array(ctx, args, kwargs):
+        x = args[0]
+        dt = kwargs.get('dtype')
+        if isinstance(x, SymSeq) and isinstance(dt, Builtin) and dt.name in ('int', 'float'):
+            if dt.name == 'int' and any(c.range() == REAL for c in x.cols):
+                I.reg.assumptions_used.add("numpy: np.array(x, dtype=int) truncates; exact for the integral id / type / molecule columns")
+                cols = [z3.Array(I.reg.fresh('asint'), INT, INT) for _ in x.cols]
+                k = z3.Int(I.reg.fresh('k'))
+                for cn, co in zip(cols, x.cols):
+                    I.assume(z3.ForAll([k], z3.Implies(z3.And(k >= 0, k < x.length), z3.Select(cn, k) == z3.ToInt(z3.Select(co, k))), patterns=[z3.Select(cn, k)]))
+                return SymSeq(x.length, cols, x.width, 'ndarray', (x.name or 'x') + '_int')
+            return x
+        raise OutOfSubset("np.array(%r, dtype=%r)" % (x, dt))
+    I.models['numpy.array'] = m_array
+
+    def m_zeros(ctx, args, kwargs):
+        n = to_z3(args[0])
+        return SymSeq(n, [z3.K(INT, z3.RealVal(0))], None, 'ndarray', 'zeros')
+    I.models['numpy.zeros'] = m_zeros
+
+    def thunk():
+        ref, f = AM.make_atoms(I, 'written')
+        N = f['positions'].length
+        I.assume(AM.wf_sizes(f))
+        k = z3.Int('tk')
+        env = {'atom_format': style}
+        toks = {}
+
+        def tokens(name, fp, width, length, sort):
+            """The numeric tokens of the records of one section, as the writer produced them (bridging assumption: parsing a printed number gives
+            the number back; integral columns exactly, reals to the printed precision -- A2 treats the latter as exact)."""
+            want = REC[fp][2]
+            cols = [z3.Array('%s_tok%d' % (name, c), INT, sort) for c in range(width)]
+            vals = want(f, k)[:width]
+            body = []
+            for c, v in zip(cols, vals):
+                vz = v if z3.is_expr(v) else z3.IntVal(v)
+                if sort == REAL and vz.sort() == INT:
+                    vz = z3.ToReal(vz)
+                body.append(z3.Select(c, k) == vz)
+            I.assume(z3.ForAll([k], z3.Implies(z3.And(k >= 0, k < length), z3.And(*body)), patterns=[z3.Select(cols[0], k)]))
+            for c in cols[1:]:
+                I.assume(z3.ForAll([k], z3.Implies(z3.And(k >= 0, k < length), z3.And(*body)), patterns=[z3.Select(c, k)]))
+            return SymSeq(length, cols, width, 'ndarray', name)
+        env['atoms'] = tokens('atoms', '(i, (x, y, z)) in enumerate(self.positions)', 7 if style == 'full' else 5, N, REAL)
+        for kind, w in AM.KINDS:
+            pl = AM.PLURAL[kind]
+            env[pl] = tokens(pl, '(i, tup) in enumerate(self.%s)' % pl, 2 + w, f[pl].length, INT)
+        I.reg.assumptions_used.add("bridge (text level, not interpreted): the numeric tokens of a record line are the numbers the writer formatted into it")
+        ctx = I.block_ctx(REL, 'Atoms.load_lmpdat', env)
+        ctx.exec_block(helper + sel + terms)
+        out = {n: ctx.lookup(n) for n in ('atom_types', 'groups', 'charges', 'atom_tups')}
+        for kind, _ in AM.KINDS:
+            out[kind + '_types'] = ctx.lookup(kind + '_types')
+            out[kind + '_tups'] = ctx.lookup(kind + '_tups')
+        return f, out
+
+    paths = I.explore(thunk, max_paths=64)
+    nret = 0
+    for pi, p in enumerate(paths):
+        if p.outcome != 'return':
+            raise OutOfSubset("decoding block raises %r" % (p.value,))
+        nret += 1
+        f, out = p.value
+        N = f['positions'].length
+        k = z3.Int('qk')
+
+        def same(a, b, n):
+            if not isinstance(a, SymSeq):
+                return z3.BoolVal(False)
+            conj = []
+            for ca, cb in zip(a.cols, b.cols):
+                x, y = z3.Select(ca, k), z3.Select(cb, k)
+                if x.sort() != y.sort():
+                    x = z3.ToReal(x) if x.sort() == INT else x
+                    y = z3.ToReal(y) if y.sort() == INT else y
+                conj.append(x == y)
+            return z3.And(a.length == n, z3.BoolVal(len(a.cols) == len(b.cols)), z3.ForAll([k], z3.Implies(z3.And(k >= 0, k < n), z3.And(*conj))))
+        S.add(I, "%s/roundtrip/atom-type-ids#%d" % (tag, pi), p.pc, same(out['atom_types'], f['atom_types'], N), clause='reading back reproduces type ids in atom order')
+        S.add(I, "%s/roundtrip/positions#%d" % (tag, pi), p.pc, same(out['atom_tups'], f['positions'], N), clause='reading back reproduces positions (record level)')
+        if style == 'full':
+            S.add(I, "%s/roundtrip/molecule-groups#%d" % (tag, pi), p.pc, same(out['groups'], f['groups'], N), clause='reading back reproduces molecule groups (full style)')
+            S.add(I, "%s/roundtrip/charges#%d" % (tag, pi), p.pc, same(out['charges'], f['charges'], N), clause='reading back reproduces charges (full style)')
+        else:
+            zero = lambda a: z3.And(a.length == N, z3.ForAll([k], z3.Implies(z3.And(k >= 0, k < N), z3.Select(a.cols[0], k) == 0))) if isinstance(a, SymSeq) else z3.BoolVal(False)
+            S.add(I, "%s/atomic-style-has-zero-charges-and-groups#%d" % (tag, pi), p.pc, z3.And(zero(out['groups']), zero(out['charges'])))
+        for kind, w in AM.KINDS:
+            pl = AM.PLURAL[kind]
+            n = f[pl].length
+            ty, tu = out[kind + '_types'], out[kind + '_tups']
+            if isinstance(ty, list) and ty == [] and isinstance(tu, list) and tu == []:
+                S.add(I, "%s/roundtrip/%s-none#%d" % (tag, pl, pi), p.pc, n == 0, clause='no records of a kind: no terms')
+                continue
+            S.add(I, "%s/roundtrip/%s-types-and-atoms#%d" % (tag, pl, pi), p.pc, z3.And(same(ty, f[kind + '_types'], n), same(tu, f[pl], n)),
+                  clause='reading back reproduces every term with its type')
+        S.add_canary(I, "%s/canary#%d" % (tag, pi), [h for h in p.pc if not z3.is_quantifier(h)])
+        if pi == 0:
+            S.add_probe(I, "%s/probe/hypotheses-consistent#%d" % (tag, pi), p.pc)
+    if nret == 0:
+        raise OutOfSubset("decoding block has no normal path")
+    S.add_interp_obligations(I)
